@@ -1,0 +1,14 @@
+//go:build verif
+// +build verif
+
+package main
+
+// VerifHook, when set by a verification harness, is called at every
+// verifPoint on the calling goroutine.
+var VerifHook func(name string)
+
+func verifPoint(name string) {
+	if h := VerifHook; h != nil {
+		h(name)
+	}
+}
